@@ -230,6 +230,18 @@ pub fn create_archive(path: &Path) {
     block_on(async { Archive::create(local(path)).await }).expect("create archive");
 }
 
+thread_local! {
+    static NO_OWNER: std::cell::Cell<bool> = const { std::cell::Cell::new(false) };
+}
+
+/// Run `f` with backups on this thread not recording owners (BackupOptions::owner = false).
+pub fn without_owner<T>(f: impl FnOnce() -> T) -> T {
+    let old = NO_OWNER.with(|n| n.replace(true));
+    let r = f();
+    NO_OWNER.with(|n| n.set(old));
+    r
+}
+
 pub type Changes = Arc<Mutex<Vec<(String, char)>>>;
 
 pub fn backup_opts(o: Opts, excl: &[String], changes: Option<Changes>) -> BackupOptions {
@@ -244,7 +256,7 @@ pub fn backup_opts(o: Opts, excl: &[String], changes: Option<Changes>) -> Backup
                 Ok(())
             }) as conserve::ChangeCallback
         }),
-        owner: true,
+        owner: !NO_OWNER.with(|n| n.get()),
     }
 }
 
